@@ -299,7 +299,7 @@ func (a *authSim) create() {
 
 func (a *authSim) revoke() {
 	r, t := a.r, a.r.T
-	kind := t.Pick([]int{50 * boolInt(len(a.live) > 0), 15, 15, 20 * boolInt(len(a.revoked) > 0)}, "revoke-kind")
+	kind := t.Pick([]int{50 * boolInt(len(a.live) > 0), 15, 15, 20 * boolInt(len(a.revoked) > 0), 15 * boolInt(len(a.live) > 0)}, "revoke-kind")
 	var tok, what string
 	faulty := false
 	liveIdx := -1
@@ -315,6 +315,14 @@ func (a *authSim) revoke() {
 		tok, what = a.admin, "admin"
 	case 3:
 		tok, what = a.revoked[t.Draw(len(a.revoked), "revoked-idx")], "already-revoked"
+	case 4:
+		// a value that was never issued but is "equal" to a live token under a looser comparison (letter case, SQL
+		// pattern): the live token must go on authenticating (wave 10: DELETE ... COLLATE NOCASE)
+		u := a.live[t.Draw(len(a.live), "near-miss-idx")]
+		tok, what = []string{swapCase(u), strings.ToLower(u), "_" + u[1:], u[:len(u)/2] + "%25"}[t.Draw(4, "near-miss-kind")], "near-miss-of-live"
+		if tok == u {
+			tok = u + "x"
+		}
 	}
 	a.failNextCommit = faulty
 	code, body := a.w.HTTP("DELETE", "/api/v1/access/"+tok, nil, bearer(a.admin))
